@@ -125,6 +125,10 @@ def hostile_corpus():
         'pragma six': '#pragma a b c d e f\n#pragma a b c d e f g h',
         'pragma part': '#pragma AVRPART MEMORY PROG_FLASH 0xffffffffffff',
     }
+    # '@' of a macro body next to text that is not ASCII, in a comment, a string and an operand; with and without call operands
+    for nm, body in (('comment', ' nop ; keep in the @\u00b5C RAM'), ('string', ' .db "@\u20ac", 1'), ('operand', ' ldi r16, @\u00e9'), ('at end', ' nop ; @'), ('emoji', ' .db "\U0001f600@\U0001f600@0\U0001f600"')):
+        c['macro @ before non-ascii in %s, call with operand' % nm] = '.macro m\n' + body + '\n.endm\n m 1'
+        c['macro @ before non-ascii in %s, call without' % nm] = '.macro m\n' + body + '\n.endm\n m'
     # recursion that continues after a segment switch or an .org inside the macro body (the later segments of an expansion)
     c['macro recursion after .org'] = '.macro m\nnop\n.org 0x10\nm\n.endm\nm'
     c['macro recursion after segment switch'] = '.macro m\nnop\n.dseg\n.byte 1\n.cseg\nm\n.endm\nm'
@@ -150,7 +154,7 @@ def mutate(rng, text):
     b = bytearray(text.encode('utf-8', 'replace'))
     for _ in range(rng.randrange(1, 6)):
         if not b: break
-        k = rng.randrange(7)
+        k = rng.randrange(8)
         i = rng.randrange(len(b))
         if k == 0: b[i] = rng.randrange(256)
         elif k == 1: del b[i]
@@ -161,6 +165,8 @@ def mutate(rng, text):
             j = min(len(b), i + rng.randrange(1, 40)); del b[i:j]
         elif k == 5:
             tok = rng.choice(DICT).encode('utf-8'); b[i:i] = b' ' + tok + b' '
+        elif k == 7:
+            b[i:i] = rng.choice(['\u00e9', '\u00b5', '\u20ac', '\U0001f600', '@\u00e9', '\u00e9@', "'\u20ac'"]).encode('utf-8')     # text that is not ASCII, anywhere
         else:
             nl = b.find(b'\n', i)
             if nl > 0: b[nl:nl + 1] = b'\n' + rng.choice(['.endif', '.else', '.endm', '.macro q', '.if 0', '.exit', '.dseg', '.org 0xffffffff']).encode() + b'\n'
@@ -308,6 +314,22 @@ def run(tier, seed, model_ok):
         kimpl, kbad = run_isolated([('k_' + k.replace(' ', '_'), 'B', v.encode().hex()) for k, v in known.items()])
     finally:
         shutil.rmtree(root, ignore_errors=True)
+    # what the tool does after a successful build: the two file writers, on images up to the whole default flash
+    wsrc = {'2 bytes': ' nop', '64 KiB': '.org 0x7fff\n nop', '64 KiB + 2': '.org 0x8000\n nop', '1 MiB': '.org 0x7ffff\n nop', '1 MiB + 2': '.org 0x80000\n nop',
+            '2 MiB + 2, eeprom 64 KiB': '.org 0x100000\n nop\n.eseg\n.org 0xffff\n.db 1', 'whole default flash, 8 MiB': '.org 0x3fffff\n nop', 'eeprom only': '.eseg\n.db 1, 2, 3', 'nothing': ''}
+    wcases = [('w_' + k.replace(' ', '_'), 'W', v.encode().hex() if v else '-') for k, v in wsrc.items()]
+    for (tid, _, _), v in zip(wcases, wsrc.values()): src[tid] = v.encode()
+    wimpl, wbad = run_isolated(wcases, floor_s=60)
+    for tid, st in wbad.items():
+        vio.append({'what': 'writing the built images did not return: worker ' + st[:200], 'source': src[tid].decode(), 'key': 'abort'})
+    for tid, _, _ in wcases:
+        r = wimpl.get(tid)
+        results['write ' + (r or 'none').split()[0]] += 1
+        if tid not in wbad and not (r or '').startswith(('OK', 'ERR')):
+            vio.append({'what': 'building and then writing the images panicked or gave no answer: ' + str(r)[:60], 'source': src[tid].decode(), 'key': 'panic'})
+        elif r and r.startswith('OK') and ('wcode=err' in r or 'wee=err' in r):
+            vio.append({'what': 'a writer refused an image the build returned: ' + r[:120], 'source': src[tid].decode(), 'key': 'writer'})
+    dist['build then write'] += len(wcases); total[0] += len(wcases)
     # the second recorded finding: evaluation time doubles with every level of an .equ chain that uses the next
     # definition twice (no memoisation).  Criterion independent of the machine: 22 levels take more than 8 times as
     # long as 17 levels (2^5 = 32 expected) and more than 0.3 s.
@@ -324,7 +346,7 @@ def run(tier, seed, model_ok):
             vio.append({'what': 'expression nesting deep enough to exhaust the stack of the recursive-descent parser', 'input': k, 'result': kbad.get(tid, kimpl.get(tid, ''))[:120], 'key': 'deep-nesting:' + k})
     return {
         'evaluations': total[0] + len(known), 'distinct_nontrivial': len(distinct),
-        'rule': 'bounded-exhaustive single-line programs: %d heads (every mnemonic, every directive in . and # form, a macro call, a labelled line, nothing) x operand lists of length 0, 1, 2 (dictionary of %d valid/boundary/hostile texts; second operand over %s) and 3 (over %d texts); %s in 5 contexts (.dseg, .eseg, macro body, untaken .if, small device); a hostile multi-line corpus (%d programs: recursion, unbalanced directives, huge sizes, long lists/lines/chains, nesting, odd bytes); %d random programs and byte/token mutations of valid programs (up to 64 KiB); file trees (include cycles, chains of 60 and 70 includes, directory as file, binary file). Every input runs in a worker process with a %d GiB address-space limit and a watchdog; a dead or timed-out worker is bisected to the single input; inputs are processed in batches of %d' % (
+        'rule': 'bounded-exhaustive single-line programs: %d heads (every mnemonic, every directive in . and # form, a macro call, a labelled line, nothing) x operand lists of length 0, 1, 2 (dictionary of %d valid/boundary/hostile texts; second operand over %s) and 3 (over %d texts); %s in 5 contexts (.dseg, .eseg, macro body, untaken .if, small device); a hostile multi-line corpus (%d programs: recursion, unbalanced directives, huge sizes, long lists/lines/chains, nesting, odd bytes); %d random programs and byte/token mutations of valid programs (up to 64 KiB); file trees (include cycles, chains of 60 and 70 includes, directory as file, binary file); build-then-write of images from 2 bytes to the whole 8 MiB default flash through the two file writers. Every input runs in a worker process with a %d GiB address-space limit and a watchdog; a dead or timed-out worker is bisected to the single input; inputs are processed in batches of %d' % (
             len(heads()), len(DICT), 'the whole dictionary' if tier == 'thorough' else 'a core of %d' % len(CORE + VALID[:6]), 30 if tier == 'thorough' else 10,
             'every 7th of the same lines' if tier == 'thorough' else 'every 23rd of the same lines', len(corpus), nrand, LIMIT_AS >> 30, BATCH),
         'samples': samples[:2],
